@@ -452,8 +452,11 @@ func (e *h01Env) smallMutation(tag string) {
 	x, y := vsymChoice(tag+".x", e.w), vsymChoice(tag+".y", vsymParam("framerows", e.h))
 	r := vsymRune(tag + ".r")
 	vsymAssume(vsymAnd(r >= 0x21, r <= 0x7e))
-	if vsymChoice(tag+".keeprune", 2) == 1 {
+	switch vsymChoice(tag+".keeprune", 3) {
+	case 1:
 		r = e.sp.cells[y*e.w+x].main
+	case 2:
+		r = 0x0a // a control rune: shown as a blank, width 0 internally, keeps its combining marks
 	}
 	var comb []rune
 	switch vsymChoice(tag+".comb", 3) {
@@ -578,4 +581,68 @@ func H01_allterms() {
 	vsymAssert(len(vt.bad) == 0, "after Fini: output is a well-formed ECMA-48 stream")
 	vsymAssert(!vt.alt && vt.cursorVis && !vt.keypad, "after Fini: primary screen, cursor visible, keypad mode off")
 	vsymAssert(vt.pen == (rvPen{}), "after Fini: colours and attributes are reset")
+}
+
+// H13_lock: LockRegion with any origin (also off-screen) and extent on a painted 4x2
+// screen: while locked, exactly the cells of the region that lie on the screen are never
+// written, every other changed cell is repainted; after unlocking, the region's cells are
+// repainted by the next Show and the others are left alone.
+func H13_lock() {
+	e := h01New("xterm-256color", 4, 2, false)
+	for y := 0; y < 2; y++ {
+		for x := 0; x < 4; x++ {
+			e.set(x, y, rune('a'+y*4+x), nil, StyleDefault)
+		}
+	}
+	e.s.Show()
+	e.compare("painted")
+	x0, y0 := vsymChoice("x0", 6)-2, vsymChoice("y0", 3)-1
+	w, h := 1+vsymChoice("w", 5), 1+vsymChoice("h", 2)
+	e.s.LockRegion(x0, y0, w, h, true)
+	for y := y0; y < y0+h; y++ {
+		for x := x0; x < x0+w; x++ {
+			e.sp.Lock(x, y)
+		}
+	}
+	// frame 2: every cell changes
+	before := make([]h08Cell, len(e.sp.cells))
+	copy(before, e.sp.cells)
+	stamps := e.stamps()
+	blk := e.tty.vt.blk
+	for y := 0; y < 2; y++ {
+		for x := 0; x < 4; x++ {
+			e.set(x, y, rune('A'+y*4+x), nil, StyleDefault)
+		}
+	}
+	e.s.Show()
+	e.compare("while locked")
+	e.c13(before, stamps, e.style, blk)
+	for i := range e.sp.cells {
+		if !e.sp.cells[i].lock {
+			vsymAssert(e.tty.vt.cells[i].stamp > blk, "a changed cell outside the locked region is repainted")
+		} else {
+			vsymAssert(e.tty.vt.cells[i].r == rune('a'+i), "a locked cell keeps showing what it showed when it was locked")
+		}
+	}
+	// frame 3: unlock, nothing else changes
+	locked := make([]bool, len(e.sp.cells))
+	for i := range locked {
+		locked[i] = e.sp.cells[i].lock
+	}
+	e.s.LockRegion(x0, y0, w, h, false)
+	for y := y0; y < y0+h; y++ {
+		for x := x0; x < x0+w; x++ {
+			e.sp.Unlock(x, y)
+		}
+	}
+	blk = e.tty.vt.blk
+	e.s.Show()
+	e.compare("after unlocking")
+	for i := range e.sp.cells {
+		if locked[i] {
+			vsymAssert(e.tty.vt.cells[i].stamp > blk, "a cell is repainted by the first Show after it was unlocked")
+		} else {
+			vsymAssert(e.tty.vt.cells[i].stamp <= blk, "unlocking a region does not repaint cells outside it")
+		}
+	}
 }
